@@ -1,13 +1,208 @@
-//! std::Vec value-level shadow (stub, filled in later)
-use crate::interp::Out;
+//! std::Vec value-level shadow: every register is mirrored by plain `Vec<i64>` / `VecDeque<i64>`
+//! state following std's semantics (values only, never ids, never capacities).
+#![allow(static_mut_refs)]
 
-#[derive(Clone, Debug)]
+use crate::interp::Out;
+use crate::script::{self, Gen, It, Key, Pred};
+use std::collections::VecDeque;
+use std::ops::Bound;
+
+#[derive(Clone)]
 pub enum Sh {
-  Pending,
+  Pending, // unknown: resynchronised from the real vector at the next S line
   Gone,
   Vec(Vec<i64>),
+  Drain { src: usize, mid: VecDeque<i64>, tail: Vec<i64> },
+  Splice { src: usize, mid: VecDeque<i64>, tail: Vec<i64>, repl: It },
+  Filter { src: usize, kept: Vec<i64>, rest: VecDeque<i64>, pred: Pred },
+  Into(VecDeque<i64>),
 }
-pub fn set_eq_script(_s: &[bool]) {}
-pub fn exec(_sh: &mut Vec<Sh>, _names: &[String], _t: &[&str], _precap: Option<usize>) -> Out {
-  Out::Skip
+
+const HUGE: usize = 1 << 24;
+static mut EQ: (Vec<bool>, usize) = (Vec::new(), 0);
+
+pub fn set_eq_script(s: &[bool]) {
+  unsafe { EQ = (s.to_vec(), 0) };
+}
+fn eq(a: i64, b: i64) -> bool {
+  unsafe {
+    if EQ.1 < EQ.0.len() {
+      EQ.1 += 1;
+      return EQ.0[EQ.1 - 1];
+    }
+  }
+  a == b
+}
+
+/// std's range resolution for drain / splice / extend_from_within; None = panic
+pub fn range(a: Bound<usize>, b: Bound<usize>, len: usize) -> Option<(usize, usize)> {
+  let s = match a {
+    Bound::Included(n) => n,
+    Bound::Excluded(n) => n.checked_add(1)?,
+    Bound::Unbounded => 0,
+  };
+  let e = match b {
+    Bound::Included(n) => n.checked_add(1)?,
+    Bound::Excluded(n) => n,
+    Bound::Unbounded => len,
+  };
+  if s <= e && e <= len { Some((s, e)) } else { None }
+}
+
+pub struct Ctx<'a> {
+  pub sh: &'a mut Vec<Sh>,
+  pub names: &'a [String],
+}
+impl<'a> Ctx<'a> {
+  pub fn idx(&self, n: &str) -> Option<usize> {
+    self.names.iter().position(|x| x == n)
+  }
+  pub fn vec(&mut self, n: &str) -> Option<&mut Vec<i64>> {
+    let i = self.idx(n)?;
+    match &mut self.sh[i] {
+      Sh::Vec(v) => Some(v),
+      _ => None,
+    }
+  }
+  /// store the state of a register the real operation has just created (if it did)
+  pub fn put(&mut self, n: &str, s: Sh) {
+    if let Some(i) = self.idx(n) {
+      if matches!(self.sh[i], Sh::Pending) {
+        self.sh[i] = s;
+      }
+    }
+  }
+}
+
+pub fn exec(sh: &mut Vec<Sh>, names: &[String], t: &[&str], precap: Option<usize>) -> Out {
+  let mut c = Ctx { sh, names };
+  run(&mut c, t, precap).unwrap_or(Out::Skip)
+}
+
+/// None = no shadow state for this register / operation: no comparison
+fn run(c: &mut Ctx, t: &[&str], precap: Option<usize>) -> Option<Out> {
+  let op = t[0];
+  let r = *t.get(1)?;
+  let n2 = t.get(2).and_then(|s| script::num(s));
+  // constructors
+  let made: Option<Vec<i64>> = match op {
+    "new" | "default" | "macro_empty" | "with_capacity" | "with_alignment" => Some(vec![]),
+    "from_slice" | "from_mut_slice" | "macro_list" => Some(script::vals(&t[2..])?),
+    "collect" => Some(It::parse(t[2])?.until_none()),
+    "macro_repeat" => {
+      let n = script::num(t[3])?;
+      if n > HUGE {
+        return None;
+      }
+      Some(vec![script::val(t[2])?; n])
+    }
+    _ => None,
+  };
+  if let Some(v) = made {
+    c.put(r, Sh::Vec(v));
+    let huge = matches!(op, "with_capacity" | "with_alignment") && n2.map_or(true, |n| n > HUGE);
+    return if huge { None } else { Some(Out::Unit) };
+  }
+  if let Some(o) = crate::shadow_iter::run(c, t) {
+    return o;
+  }
+  let v = c.vec(r)?;
+  let len = v.len();
+  Some(match op {
+    "push" => {
+      v.push(script::val(t[2])?);
+      Out::Unit
+    }
+    "pop" => Out::Opt(v.pop()),
+    "insert" => {
+      if n2? > len {
+        return Some(Out::Panic);
+      }
+      v.insert(n2?, script::val(t[3])?);
+      Out::Unit
+    }
+    "remove" | "swap_remove" => {
+      if n2? >= len {
+        return Some(Out::Panic);
+      }
+      Out::Opt(Some(if op == "remove" { v.remove(n2?) } else { v.swap_remove(n2?) }))
+    }
+    "truncate" => {
+      v.truncate(n2?);
+      Out::Unit
+    }
+    "clear" => {
+      v.clear();
+      Out::Unit
+    }
+    "resize" => {
+      if n2? > HUGE {
+        return None;
+      }
+      v.resize(n2?, script::val(t[3])?);
+      Out::Unit
+    }
+    "resize_with" => {
+      let mut g = Gen::parse(t[3])?;
+      if n2? > HUGE {
+        return None;
+      }
+      v.resize_with(n2?, || g.ask());
+      Out::Unit
+    }
+    "extend" => {
+      v.extend(It::parse(t[2])?.until_none());
+      Out::Unit
+    }
+    "extend_from_slice" => {
+      v.extend(script::vals(&t[2..])?);
+      Out::Unit
+    }
+    "extend_from_within" => match range(script::bound(t[2])?, script::bound(t[3])?, len) {
+      Some((s, e)) => {
+        v.extend_from_within(s..e);
+        Out::Unit
+      }
+      None => Out::Panic,
+    },
+    "dedup" => {
+      v.dedup_by(|a, b| eq(*a, *b));
+      Out::Unit
+    }
+    "dedup_by" => {
+      let mut p = Pred::parse(t[2])?;
+      v.dedup_by(|a, b| p.ask2(*a, *b));
+      Out::Unit
+    }
+    "dedup_by_key" => {
+      let mut k = Key::parse(t[2])?;
+      v.dedup_by(|a, b| k.ask(*a) == k.ask(*b));
+      Out::Unit
+    }
+    "retain" => {
+      let mut p = Pred::parse(t[2])?;
+      v.retain(|a| p.ask(*a));
+      Out::Unit
+    }
+    "remove_item" => {
+      let probe = script::val(t[2])?;
+      Out::Opt(v.iter().position(|&x| eq(x, probe)).map(|i| v.remove(i)))
+    }
+    "reserve" | "reserve_exact" => {
+      if n2? > HUGE {
+        return None;
+      }
+      Out::Unit
+    }
+    // sanctioned divergence: MiniVec panics when asked to shrink to more than its capacity
+    "shrink_to" => {
+      if n2? > precap? {
+        return None;
+      }
+      Out::Unit
+    }
+    "shrink_to_fit" | "raw_part" => Out::Unit,
+    "split_spare" | "raw_parts" => Out::Nums(vec![len as u64]),
+    _ => return crate::shadow_iter::run2(c, t),
+  })
 }
